@@ -1,124 +1,434 @@
 """C14 — snapshot acceleration and repeated use never change results or the source.  Theorems: coq/Properties/C14.v.
-Ties: M (Model/SigTimes.v `isd_cached`) against ISD.from_model(doc, t, sig_times); S (Spec/RenderSpec.v) is evaluated
-in Coq on the code's cached and uncached snapshots.  The "source unchanged / repeatable" half is observed on the
-Python object graph: random operation histories with a deep structural fingerprint after every call."""
-import logging, sys
+Ties: M (Model/SigTimes.v `isd_cached`, Model/IsdCache.v `run_history`) against ISD.from_model(doc, t, sig_times); S
+(Spec/RenderSpec.v) is evaluated in Coq on the code's cached and uncached snapshots; the hypotheses of the theorems
+(Spec/DocWf.v `doc_wf`, Model/CloneTrigger.v `clone_empties_doc`) are evaluated on every generated document.
+The "source unchanged / repeatable" half is observed on the Python object graph: random operation histories with a deep
+structural fingerprint after every call, several SignificantTimes objects per document used in any order, objects of
+another document passed in, and — on a copy — calls after the document was modified through the model API."""
+import copy, logging, re, sys
 import common as C
 import isdlit as L
 import docgen, isdcore, gen_tables
 
+PROP = "C14"
 HEADER = ("From TT Require Import Model.Doc Gen.StyleTables Model.Isd Model.SigTimes Model.IsdCases Model.SigCases.\n"
           "Open Scope Z_scope.\n")
-OPS = ["sig", "snap", "snap_cached", "seq", "srt", "vtt", "imsc"]
+OPS = ["sig", "snap", "snap_cached", "snap_cached", "seq", "srt", "vtt", "imsc", "foreign"]
+
+
+def load_proposed(run):
+    pend = []
+    try:
+        for line in open(C.VERIF + f"/findings_proposed/{PROP}.txt", encoding="utf-8"):
+            mt = re.match(r"finding\s+property=(\S+)\s+id=(\S+)\s+what=(.*)", line.strip())
+            if mt and mt.group(1) == PROP and mt.group(2) not in {f["id"] for f in run.findings}:
+                run.findings.append(dict(property=PROP, id=mt.group(2), what=mt.group(3))); pend.append(mt.group(2))
+    except FileNotFoundError:
+        pass
+    if pend: run.cov["findings_pending_merge"] = pend
+
+
+def scatter_ruby_regions(rng, d, gen):
+    """give the spans below rb/rt/rp their own region references: half of the ruby elements get the shape of the recorded
+    finding (all children of the base in one region, the annotation with a child in every region), the others its benign
+    neighbours (random regions)"""
+    import ttconv.model as m
+    regs = list(d.iter_regions())
+    if len(regs) < 2 or d.get_body() is None: return 0
+    n = 0
+
+    def span(reg):
+        sp = m.Span(d); sp.set_id(gen.uid("s")); sp.set_region(reg); gen.text(sp); return sp
+    for e in list(d.get_body().dfs_iterator()):
+        if not isinstance(e, m.Ruby): continue
+        shaped = rng.random() < 0.5
+        base_reg = rng.choice(regs)
+        for part in e.dfs_iterator():
+            if isinstance(part, m.Rb):
+                if shaped and not list(part): part.push_child(span(base_reg)); n += 1
+                for c in part:
+                    if isinstance(c, m.Span) and (shaped or rng.random() < 0.5): c.set_region(base_reg if shaped else rng.choice(regs)); n += 1
+            elif isinstance(part, (m.Rt, m.Rp)):
+                if shaped:
+                    for r in regs: part.push_child(span(r)); n += 1
+                else:
+                    for c in part:
+                        if isinstance(c, m.Span) and rng.random() < 0.5: c.set_region(rng.choice(regs)); n += 1
+    return n
+
+
+def inject_never_active(rng, d):
+    """elements that are never active: begin == end, or a child that begins after its parent's end"""
+    import ttconv.model as m
+    from fractions import Fraction as F
+    if d.get_body() is None: return 0
+    els = [e for e in d.get_body().dfs_iterator() if isinstance(e, (m.Div, m.P, m.Span))]
+    n = 0
+    for e in rng.sample(els, min(len(els), rng.randint(1, 3))):
+        par = e.parent()
+        if rng.random() < 0.5 or par is None or isinstance(par, (m.Body, m.Rb, m.Rt, m.Rp)):
+            x = F(rng.randint(0, 8), rng.choice([1, 2])); e.set_begin(x); e.set_end(x)
+        else:
+            par.set_end(F(2)); e.set_begin(F(5))
+        n += 1
+    return n
+
+
+def inject_equal_sets(rng, d):
+    """value-equal <set> steps (same property, value, begin, end; the same object or equal copies) on several elements
+    whose time bases differ"""
+    import ttconv.model as m, ttconv.style_properties as s
+    from fractions import Fraction as F
+    if d.get_body() is None: return 0
+    els = [e for e in d.get_body().dfs_iterator() if isinstance(e, (m.Div, m.P, m.Span))]
+    if len(els) < 2: return 0
+    SP = s.StyleProperties
+    prop, val = rng.choice([(SP.BackgroundColor, s.NamedColors.blue.value), (SP.Opacity, F(1, 2)), (SP.Visibility, s.VisibilityType.hidden),
+                            (SP.Display, s.DisplayType.none), (SP.Color, s.NamedColors.red.value)])
+    b, e = F(rng.randint(0, 2)), F(rng.randint(3, 6))
+    shared = m.DiscreteAnimationStep(prop, b, e, val)
+    chosen = rng.sample(els, min(len(els), rng.randint(2, 4)))
+    for i, x in enumerate(chosen):
+        x.set_begin(F(i * rng.randint(1, 3) + rng.randint(0, 1)))
+        if rng.random() < 0.5: x.set_end(None)
+        x.add_animation_step(shared if rng.random() < 0.5 else m.DiscreteAnimationStep(prop, b, e, val))
+    return len(chosen)
+
+
+def edit(rng, d, gen):
+    """one modification of the document through the public model API; returns a description or None"""
+    import ttconv.model as m, ttconv.style_properties as s
+    from fractions import Fraction as F
+    SP = s.StyleProperties
+    kind = rng.choice(["begin", "end", "begin", "end", "text", "region", "remove_child", "push_child", "put_initial", "put_initial", "remove_initial"])
+    if kind == "put_initial":
+        prop, val = rng.choice([(SP.Color, s.NamedColors.red.value), (SP.Opacity, F(rng.randint(0, 3), 4)), (SP.Display, s.DisplayType.none),
+                                (SP.Display, s.DisplayType.auto), (SP.BackgroundColor, s.NamedColors.blue.value), (SP.Visibility, s.VisibilityType.hidden)])
+        d.put_initial_value(prop, val); return "put_initial_value " + prop.__name__
+    if kind == "remove_initial":
+        ivs = [p for p, _ in d.iter_initial_values()]
+        if not ivs: return None
+        p = rng.choice(ivs); d.remove_initial_value(p); return "remove_initial_value " + p.__name__
+    if d.get_body() is None: return None
+    els = [e for e in d.get_body().dfs_iterator()]
+    timed = [e for e in els if not isinstance(e, (m.Br, m.Text))]
+    texts = [e for e in els if isinstance(e, m.Text)]
+    if kind == "text" and texts:
+        e = rng.choice(texts); e.set_text(e.get_text() + "Z"); return "set_text"
+    if kind == "region" and timed and list(d.iter_regions()):
+        e = rng.choice(timed); e.set_region(rng.choice(list(d.iter_regions()))); return "set_region"
+    if kind == "remove_child":
+        ps = [e for e in els if isinstance(e, (m.Body, m.Div, m.P, m.Span)) and e.has_children()]
+        if not ps: return None
+        e = rng.choice(ps); e.remove_child(rng.choice(list(e))); return "remove_child"
+    if kind == "push_child":
+        ps = [e for e in els if isinstance(e, (m.P, m.Span))]
+        if not ps: return None
+        e = rng.choice(ps); sp = m.Span(d); sp.set_id(gen.uid("s")); gen.text(sp)
+        if rng.random() < 0.5: sp.set_begin(F(rng.randint(0, 4)))
+        e.push_child(sp); return "push_child"
+    if timed:
+        e = rng.choice(timed)          # any element: a leaf container or an ancestor of much content
+        if kind == "end": e.set_end(rng.choice([None, F(rng.randint(1, 20), 2)])); return "set_end"
+        e.set_begin(rng.choice([None, F(rng.randint(0, 12), 2)])); return "set_begin"
+    return None
 
 
 def main():
-    run = C.Run("C14", "proof")
+    run = C.Run(PROP, "proof")
+    load_proposed(run)
     run.hygiene()
     sys.path.insert(0, C.SRC)
     changed, errors = gen_tables.generate({"StyleTables"})
     if errors:
         run.violation("table translator failed closed: " + "; ".join(errors), dict(kind="translator", errors=errors), False)
         return run.finish()
-    ok, log = run.build(["Proofs/C14/Cache.vo", "Proofs/C14/Restrict.vo", "Model/SigCases.vo"], clean=(run.tier == "thorough"))
+    ok, log = run.build(["Proofs/C14/Cache.vo", "Proofs/C14/Restrict.vo", "Proofs/C14/Sound.vo", "Proofs/C14/Sequence.vo",
+                         "Proofs/C14/CacheState.vo", "Model/SigCases.vo"], clean=(run.tier == "thorough"))
     proofs_ok = ok and run.theorems()
     if not ok: run.proof_log = log[-2500:]
     run.witnesses()
+    rc, out = C.coqc(C.COQ + "/Findings/C14.v", 600)
+    if rc != 0: run.cov["stale_findings"] = ["coq/Findings/C14.v no longer compiles: " + out[-300:]]
     logging.disable(logging.CRITICAL)
     from ttconv.isd import ISD
     import ttconv.srt.writer as srt_w, ttconv.vtt.writer as vtt_w, ttconv.imsc.writer as imsc_w
+    import ttconv.style_properties as s, ttconv.model as m
     import xml.etree.ElementTree as et
 
     ndocs = 200 if run.tier == "quick" else 3000
     nhist = 5 if run.tier == "quick" else 10
     rng = run.rng
-    blocks, docs, nq, n_skipped_regions = [], {}, 0, 0
-    hist_fail, n_ops, op_hist = [], 0, {o: 0 for o in OPS}
+    blocks, docs, nq, n_skipped_regions, n_scatter, n_hist_q = [], {}, 0, 0, 0, 0
+    hist_fail, hist_render, n_ops, op_hist = [], [], 0, {o: 0 for o in set(OPS)}
+    mut_hist, n_mut, n_stale, stale_first, mut_fail, edit_fail, mblocks, n_mq = {}, 0, 0, None, [], [], [], 0
+    n_never, n_eqsets, n_fixed_hist, seq_render = 0, 0, 0, []
+    prev_doc = None
     for k in range(ndocs):
         g = docgen.Gen(rng, style_density=0.06, anim_density=(0.05 if k % 2 else 0.01), display_p=0.05, ruby_p=0.04, region_ref_p=0.35)
         if k % 3 == 2: g.tp = 0.85; g.ruby_p = 0.0      # narrow content intervals: the cache skips whole documents/regions
-        d = g.doc(nreg=(0 if k % 5 == 0 else rng.choice([0, 1, 2, 2, 3])))
+        if k % 7 == 3: g.ruby_p = 0.25; g.dp = 0.0; g.tp = 0.1; g.rrp = 0.04; g.ad = 0.005   # ruby whose bases / annotations name regions
+        d = g.doc(nreg=(0 if k % 5 == 0 else (rng.choice([2, 3]) if k % 7 == 3 else rng.choice([0, 1, 2, 2, 3]))))
+        if k % 7 == 3: n_scatter += scatter_ruby_regions(rng, d, g)
         if k % 5 == 0 and not list(d.iter_regions()):
-            import ttconv.style_properties as s_
-            d.put_initial_value(s_.StyleProperties.BackgroundColor, rng.choice(docgen.COLORS))   # default region paints the initial background
+            d.put_initial_value(s.StyleProperties.BackgroundColor, rng.choice(docgen.COLORS))   # default region paints the initial background
         # regions whose background is visible only by animation or initial values
-        import ttconv.style_properties as s, ttconv.model as m
         for r in d.iter_regions():
-            if rng.random() < 0.3: r.set_style(s.StyleProperties.ShowBackground, s.ShowBackgroundType.whenActive)
+            if k % 3 == 2 and rng.random() < 0.7:          # unanimated regions: the only ones _region_always_has_background can rule out
+                for a in list(r.iter_animation_steps()): r.remove_animation_step(a)
+            if rng.random() < (0.6 if k % 3 == 2 else 0.3): r.set_style(s.StyleProperties.ShowBackground, s.ShowBackgroundType.whenActive)
             if rng.random() < 0.3: r.set_style(s.StyleProperties.BackgroundColor, rng.choice(docgen.COLORS))
             if rng.random() < 0.2: r.set_style(s.StyleProperties.Opacity, rng.choice([0, 1]))
+        nreg_d = len(list(d.iter_regions()))
+        if nreg_d <= 1 and k % 2 == 0: n_never += inject_never_active(rng, d)       # the cache then holds the caller's own document
+        if k % 5 == 2: n_eqsets += inject_equal_sets(rng, d)
+        d_fresh = copy.deepcopy(d)       # an equal document that no ISD function has seen: answers on it are "fresh"
+        fp_src = L.doc_lit(d)            # the fingerprint of the source before any ISD function has seen it
         try:
             st = ISD.significant_times(d)
         except Exception:
             st = None
+        if L.doc_lit(d) != fp_src: hist_fail.append((k, "significant_times", "the source document changed"))
         qs = docgen.query_times(rng, d, 8 if run.tier == "quick" else 14)
         docs[k] = (d, qs)
+        o = lambda x: "None" if x is None else "(Some " + x + ")"
         if st is not None:
             items, pairs = [], []
             for t in qs:
                 c_lit, c_obj = isdcore.snapshot(d, t, st); u_lit, u_obj = isdcore.snapshot(d, t)
-                o = lambda x: "None" if x is None else "(Some " + x + ")"
                 items.append(f"({L.qlit(t)}, {o(c_lit)})"); pairs.append(f"({o(c_lit)}, {o(u_lit)})")
                 if c_lit is not None and u_lit is not None: n_skipped_regions += len(list(u_obj.iter_regions())) - len(list(c_obj.iter_regions()))
             nq += len(qs)
-            defs = (f"Definition d{k} := {L.doc_lit(d)}.\nDefinition q{k} : list (Q * option (list elem)) := [{'; '.join(items)}].\n"
-                    f"Definition r{k} : list (option (list elem) * option (list elem)) := [{'; '.join(pairs)}].")
-            blocks.append((k, defs, [f"cases_cached d{k} q{k}", f"cases_render r{k}"], [len(qs), len(qs)]))
+            # one SignificantTimes object, a history of query times in random order with repetitions: against Model/IsdCache.v
+            st_h = ISD.significant_times(d)
+            hq = [rng.choice(qs) for _ in range(6 if run.tier == "quick" else 10)]
+            hitems = [f"({L.qlit(t)}, {o(isdcore.snapshot(d, t, st_h)[0])})" for t in hq]
+            n_hist_q += len(hq)
+            defs = (f"Definition d{k} := {fp_src}.\nDefinition q{k} : list (Q * option (list elem)) := [{'; '.join(items)}].\n"
+                    f"Definition r{k} : list (option (list elem) * option (list elem)) := [{'; '.join(pairs)}].\n"
+                    f"Definition h{k} : list (Q * option (list elem)) := [{'; '.join(hitems)}].")
+            blocks.append((k, defs, [f"cases_cached d{k} q{k}", f"cases_render r{k}", f"cases_raise r{k}", f"c14_flags d{k}", f"history_close d{k} h{k}"],
+                           [len(qs), len(qs), len(qs), 2, len(hq)]))
         # ---- operation histories on the same document object: fingerprint after every call, repeated calls equal ----
         for h in range(nhist if k % 4 == 0 else 1):
-            fp0 = L.doc_lit(d); results = {}
-            sigs = None
+            fp0 = L.doc_lit(d); results = {}; rendered = {}
+            sig_objs = []
+            fp_prev = L.doc_lit(prev_doc) if prev_doc is not None else None
             for step in range(rng.randint(2, 12)):
                 op = rng.choice(OPS); key = op; n_ops += 1; op_hist[op] += 1
                 try:
-                    if op == "sig": sigs = ISD.significant_times(d); res = [str(x) for x in sigs]
-                    elif op == "snap": t = rng.choice(qs); key = ("snap", t); res = isdcore.snapshot(d, t)[0]
+                    if op == "sig": sig_objs.append(ISD.significant_times(d)); res = [str(x) for x in sig_objs[-1]]
+                    elif op == "snap":
+                        t = rng.choice(qs); key = ("snap", t); res, obj = isdcore.snapshot(d, t)
+                        if res is not None: rendered[key] = isdcore.render_lit(obj)
                     elif op == "snap_cached":
-                        if sigs is None: sigs = ISD.significant_times(d)
-                        t = rng.choice(qs); key = ("snapc", t); res = isdcore.snapshot(d, t, sigs)[0]
-                    elif op == "seq": res = [(str(x), L.isd_lit(i)) for x, i in ISD.generate_isd_sequence(d, is_multithreaded=False)]
+                        # any of the objects computed so far (older ones have served other calls in between)
+                        if not sig_objs: sig_objs.append(ISD.significant_times(d))
+                        t = rng.choice(qs); key = ("snapc", t); res, obj = isdcore.snapshot(d, t, rng.choice(sig_objs))
+                        if res is not None: rendered[key] = isdcore.render_lit(obj)
+                    elif op == "seq":
+                        seq = ISD.generate_isd_sequence(d, is_multithreaded=False)
+                        res = [(str(x), L.isd_lit(i)) for x, i in seq]
+                        for x, i in seq:       # the entries are the cached snapshots an earlier object gives at those times
+                            if ("snapc", x) in results and results[("snapc", x)] is not None and results[("snapc", x)] != L.isd_lit(i):
+                                hist_fail.append((k, "seq", f"the sequence entry at {x} differs from the cached snapshot taken earlier")); break
                     elif op == "srt": res = srt_w.from_model(d)
                     elif op == "vtt": res = vtt_w.from_model(d)
-                    else: res = et.tostring(imsc_w.from_model(d).getroot())
+                    elif op == "imsc": res = et.tostring(imsc_w.from_model(d).getroot())
+                    else:
+                        # a SignificantTimes object of ANOTHER document (the docstring asks for one generated from doc: misuse);
+                        # whatever it returns, neither document nor either object may change
+                        key = None; res = None
+                        if prev_doc is not None:
+                            t = rng.choice(qs)
+                            try: ISD.from_model(d, t, ISD.significant_times(prev_doc))
+                            except Exception: pass
+                            if sig_objs:
+                                try: ISD.from_model(prev_doc, t, rng.choice(sig_objs))
+                                except Exception: pass
+                            if L.doc_lit(prev_doc) != fp_prev: hist_fail.append((k, "foreign", "another document changed")); break
                 except Exception as e:
                     res = "raised " + type(e).__name__
-                if key in results and results[key] != res: hist_fail.append((k, str(key), "a repeated call returned a different result"))
-                results[key] = res
+                if key is not None:
+                    if key in results and results[key] != res: hist_fail.append((k, str(key), "a repeated call returned a different result"))
+                    results[key] = res
                 if L.doc_lit(d) != fp0: hist_fail.append((k, str(key), "the source document changed")); break
+            # cached and uncached results of the same history, at the same time, render identically
+            for (kind, t), lit in rendered.items():
+                if kind == "snap" and ("snapc", t) in rendered and rendered[("snapc", t)] != lit: hist_render.append((k, str(t)))
+            for key2, res in results.items():
+                if isinstance(key2, tuple) and key2[0] == "snapc" and res is None and results.get(("snap", key2[1])) is not None:
+                    hist_render.append((k, str(key2[1])))        # the cached call raised, the uncached one did not
+        # ---- every cache-building entry point once, fingerprint after each: with at most one region the cache holds the
+        #      caller's own document; the sequence entries against uncached snapshots of the pristine copy ----
+        if nreg_d <= 1 or k % 5 == 2:
+            fp0 = fp_src; n_fixed_hist += 1
+            for name, f in (("significant_times", lambda: ISD.significant_times(d)),
+                            ("generate_isd_sequence", lambda: ISD.generate_isd_sequence(d, is_multithreaded=False)),
+                            ("srt writer", lambda: srt_w.from_model(d)), ("vtt writer", lambda: vtt_w.from_model(d))):
+                try: r = f()
+                except Exception: r = None
+                n_ops += 1
+                if L.doc_lit(d) != fp0: hist_fail.append((k, name, "the source document changed")); break
+                if name == "generate_isd_sequence" and r is not None:
+                    for x, i in r:
+                        u_lit, u_obj = isdcore.snapshot(d_fresh, x)
+                        if u_lit is not None and isdcore.render_lit(i) != isdcore.render_lit(u_obj): seq_render.append((k, str(x))); break
+            if L.doc_lit(d_fresh) != fp0: hist_fail.append((k, "deepcopy", "the pristine copy differs from the source document"))
+        # ---- edits through the model API between calls (on a deep copy, so that the case blocks above stay valid): after every
+        #      edit each answer on the edited object must be the answer of a freshly built equal document ----
+        if k % 3 == 1:
+            dm = copy.deepcopy(d)
+            if L.doc_lit(dm) != L.doc_lit(d): edit_fail.append((k, "deepcopy", "copy differs")); dm = None
+            if dm is not None:
+                # warm whatever state there may be: uncached snapshots, a SignificantTimes object, cached snapshots, a sequence
+                for t in rng.sample(qs, min(3, len(qs))): isdcore.snapshot(dm, t)
+                try:
+                    old = ISD.significant_times(dm)
+                    for t in rng.sample(qs, min(2, len(qs))): isdcore.snapshot(dm, t, old)
+                    if rng.random() < 0.3: ISD.generate_isd_sequence(dm, is_multithreaded=False)
+                except Exception:
+                    old = None
+                last = None
+                for step in range(rng.randint(1, 3)):
+                    try: what = edit(rng, dm, g)
+                    except Exception as e: what = None
+                    if not what: continue
+                    n_mut += 1; mut_hist[what.split()[0]] = mut_hist.get(what.split()[0], 0) + 1
+                    fresh_doc = copy.deepcopy(dm)
+                    try: sig_now = ISD.significant_times(dm)
+                    except Exception: sig_now = None
+                    try: sig_fresh = ISD.significant_times(fresh_doc)
+                    except Exception: sig_fresh = None
+                    if (sig_now is None) != (sig_fresh is None) or (sig_now is not None and list(sig_now) != list(sig_fresh)):
+                        edit_fail.append((k, what, "ISD.significant_times(doc) differs from that of a freshly built equal document"))
+                    qm = docgen.query_times(rng, dm, 5)
+                    urow, crow = [], []
+                    for t in qm:
+                        u_lit, u_obj = isdcore.snapshot(dm, t); uf_lit, _ = isdcore.snapshot(fresh_doc, t)
+                        urow.append((t, u_lit))
+                        if u_lit != uf_lit:
+                            edit_fail.append((k, what, f"ISD.from_model(doc, {t}) on the edited document differs from the snapshot of a freshly built equal document"))
+                        if sig_now is not None and sig_fresh is not None:
+                            c_lit, c_obj = isdcore.snapshot(dm, t, sig_now); cf_lit, _ = isdcore.snapshot(fresh_doc, t, sig_fresh)
+                            crow.append((t, c_lit))
+                            if c_lit != cf_lit:
+                                edit_fail.append((k, what, f"ISD.from_model(doc, {t}, sig_times) with an object built after the edit differs from a freshly built equal document"))
+                            # the property on the edited document (judged through Python's render mirror and the document's trigger)
+                            if u_lit is not None and (c_lit is None or isdcore.render_lit(u_obj) != isdcore.render_lit(c_obj)):
+                                mut_fail.append((k, what, f"cached and uncached differ at {t} on the edited document"))
+                            # the object computed before the edits
+                            elif u_lit is not None and old is not None:
+                                o_lit, o_obj = isdcore.snapshot(dm, t, old)
+                                if o_lit is None or isdcore.render_lit(o_obj) != isdcore.render_lit(u_obj):
+                                    n_stale += 1
+                                    if stale_first is None: stale_first = f"document {k} after {what}: the earlier SignificantTimes object answers for the old document at t={t}"
+                    last = (urow, crow)
+                if last is not None:
+                    # the edited document against M: uncached and cached answers given by the edited OBJECT, M applied to its literal
+                    urow, crow = last
+                    ui = "; ".join(f"({L.qlit(t)}, {o(x)})" for t, x in urow); ci = "; ".join(f"({L.qlit(t)}, {o(x)})" for t, x in crow)
+                    mblocks.append((k, f"Definition m{k} := {L.doc_lit(dm)}.\nDefinition mu{k} : list (Q * option (list elem)) := [{ui}].\n"
+                                       f"Definition mc{k} : list (Q * option (list elem)) := [{ci}].",
+                                    [f"cases_isd m{k} mu{k}", f"cases_cached m{k} mc{k}", f"c14_flags m{k}"], [len(urow), len(crow), 2]))
+                    n_mq += len(urow) + len(crow)
+        prev_doc = d
     files = isdcore.write_shards("Cases_C14_", HEADER, blocks)
     bad, broken = isdcore.eval_shards(files)
     C.clean_cases("Cases_C14_")
-    m_bad = bad.get(0, []); s_bad = bad.get(1, [])
-    run.log(f"{ndocs} documents, {nq} cached/uncached snapshot pairs ({n_skipped_regions} regions skipped by the cache), {n_ops} history operations: "
-            f"model/code mismatches {len(m_bad)}, render differences {len(s_bad)}, history failures {len(hist_fail)}, broken {len(broken)}")
+    # the edited documents: M on the literal of the edited document vs the answers of the edited object; trigger flags
+    mut_trig, mm_bad = set(), []
+    if mblocks:
+        files2 = isdcore.write_shards("Cases_C14m_", HEADER, mblocks)
+        bad2, broken2 = isdcore.eval_shards(files2)
+        C.clean_cases("Cases_C14m_")
+        mut_trig = {c for c, i in bad2.get(2, []) if i == 1}; broken += broken2
+        mm_bad = bad2.get(0, []) + bad2.get(1, [])
+    mut_known = [x for x in mut_fail if x[0] in mut_trig]; mut_fail = [x for x in mut_fail if x[0] not in mut_trig]
+    m_bad = bad.get(0, []); s_bad = bad.get(1, []); r_bad = bad.get(2, []); h_bad = bad.get(4, [])
+    not_wf = {c for c, i in bad.get(3, []) if i == 0}; trig = {c for c, i in bad.get(3, []) if i == 1}
+    sq_known = [c for c in seq_render if c[0] in trig]; sq_new = [c for c in seq_render if c[0] not in trig]
+    run.log(f"{ndocs} documents ({len(not_wf)} outside doc_wf, {len(trig)} where the recorded trigger fires, {n_never} never-active elements injected "
+            f"into 0/1-region documents, {n_eqsets} value-equal set steps), {nq} cached/uncached snapshot pairs ({n_skipped_regions} regions skipped "
+            f"by the cache), {n_hist_q} history queries against the cache-state model, {n_ops} history operations ({n_fixed_hist} fixed "
+            f"cache-builder histories), {n_mut} edits with {n_mq} answers against M ({n_stale} stale answers of older objects): "
+            f"model/code mismatches {len(m_bad)}+{len(h_bad)}+{len(mm_bad)}, render differences {len(s_bad)}, cached-only raises {len(r_bad)}, "
+            f"history failures {len(hist_fail)}+{len(hist_render)}+{len(seq_render)}, after edits {len(edit_fail)}+{len(mut_fail)}, broken {len(broken)}")
 
     def replay(case):
         k, i = case; d, qs = docs[k]
         st = ISD.significant_times(d)
         return dict(document=L.doc_lit(d), time=str(qs[i]), cached=isdcore.snapshot(d, qs[i], st)[0], uncached=isdcore.snapshot(d, qs[i])[0])
-    if s_bad:
-        run.violation(f"cached and uncached snapshots render differently (document {s_bad[0][0]}, time index {s_bad[0][1]})",
-                      dict(kind="S-on-code", spec="coq/Spec/RenderSpec.v render", first=replay(s_bad[0]), count=len(s_bad)))
+    # cached vs uncached: covered by the recorded finding exactly when the document's trigger fires
+    s_known = [c for c in s_bad + r_bad if c[0] in trig]; s_new = [c for c in s_bad + r_bad if c[0] not in trig]
+    hr_known = [c for c in hist_render if c[0] in trig]; hr_new = [c for c in hist_render if c[0] not in trig]
+    if s_known or hr_known or mut_known or sq_known:
+        c0 = (s_known or hr_known or mut_known or sq_known)[0]
+        run.known("ruby-base-emptied-by-region", f"{len(s_known) + len(hr_known) + len(mut_known) + len(sq_known)} snapshot pairs in "
+                  f"{len({c[0] for c in s_known + hr_known + mut_known + sq_known})} documents, e.g. document {c0[0]}")
+    # an OLDER SignificantTimes object used after the document was modified answers from stale data: outside the property (its histories
+    # are read-only on one document), so this is an observation in the evidence, neither a violation nor a recorded finding
+    if n_stale: run.cov["observation_stale_object_after_modification"] = f"{n_stale} answers after {n_mut} modifications; {stale_first}"
+    if s_new:
+        what = "render differently" if s_new[0] in s_bad else "differ in outcome: the cached path raises, the uncached path returns a snapshot"
+        run.violation(f"cached and uncached snapshots {what} (document {s_new[0][0]}, time index {s_new[0][1]})",
+                      dict(kind="S-on-code", spec="coq/Spec/RenderSpec.v render", first=replay(s_new[0]), count=len(s_new)))
+    if hr_new:
+        k, t = hr_new[0]
+        run.violation(f"inside one history the cached and the uncached snapshot at t={t} render differently (document {k})",
+                      dict(kind="S-on-code", clause="history render", document=L.doc_lit(docs[k][0]), time=t))
+    if sq_new:
+        k, t = sq_new[0]
+        run.violation(f"the entry of generate_isd_sequence at t={t} does not render like ISD.from_model(<fresh equal document>, {t}) (document {k})",
+                      dict(kind="S-on-code", clause="sequence entry vs fresh uncached snapshot", document=L.doc_lit(docs[k][0]), time=t, count=len(sq_new)))
+    if edit_fail:
+        k, what, detail = edit_fail[0]
+        run.violation(f"after {what} through the model API on a copy of document {k}: {detail}",
+                      dict(kind="S-on-code", clause="answers after an edit = answers of a freshly built equal document", op=what, detail=detail,
+                           document_before_edits=L.doc_lit(docs[k][0]), count=len(edit_fail), others=[(a_, b_, c_) for a_, b_, c_ in edit_fail[1:6]]))
     if hist_fail:
         k, key, what = hist_fail[0]
         run.violation(f"{what} after {key} (document {k})", dict(kind="S-on-code", clause=what, op=key, document=L.doc_lit(docs[k][0])))
-    if (m_bad or broken or not proofs_ok) and not (s_bad or hist_fail):
+    if mut_fail:
+        k, what, detail = mut_fail[0]
+        run.violation(f"after {what} on a copy of document {k}: {detail}", dict(kind="S-on-code", clause="modified document, fresh object", op=what,
+                                                                              detail=detail, document=L.doc_lit(docs[k][0])))
+    if (m_bad or h_bad or mm_bad or broken or not proofs_ok or not_wf) and not (s_new or hr_new or sq_new or hist_fail or mut_fail or edit_fail):
         what = []
+        if not_wf: what.append(f"Spec/DocWf.v doc_wf is false of {len(not_wf)} documents built through the model API (first: document {sorted(not_wf)[0]}): the hypothesis of the C14 theorems is not what the API enforces")
         if not proofs_ok: what.append("theorems of coq/Properties/C14.v no longer check: " + getattr(run, "proof_log", "")[-500:])
         if m_bad: what.append(f"correspondence Model/SigTimes.v isd_cached vs ISD.from_model(doc, t, sig_times) disagrees on {len(m_bad)} snapshots")
+        if h_bad: what.append(f"correspondence Model/IsdCache.v run_history vs a history of ISD.from_model calls on one SignificantTimes object disagrees on {len(h_bad)} answers")
+        if mm_bad: what.append(f"M applied to the literal of an edited document disagrees with the answers of the edited object on {len(mm_bad)} snapshots (first: document {mm_bad[0][0]})")
         if broken: what.append(f"case files did not evaluate: {broken[0]}")
         run.violation("; ".join(what), dict(kind="broken-tie", theorem_file="coq/Properties/C14.v", proofs_ok=proofs_ok,
-                                            correspondence="Model/SigTimes.v isd_cached vs ISD.from_model with sig_times",
+                                            correspondence="Model/SigTimes.v isd_cached / Model/IsdCache.v run_history vs ISD.from_model with sig_times",
                                             first=replay(m_bad[0]) if m_bad else None), found_input=False)
-    run.cov.update(evaluations=nq + n_ops, distinct_nontrivial=nq,
-                   rule="random documents with 0-3 regions (backgrounds visible only by animation / initial values, opacity 0, whenActive) x "
-                        "query times: cached snapshot vs M and cached vs uncached through the render specification in Coq; plus random "
-                        "histories of 2-12 operations over {significant_times, from_model cached/uncached, generate_isd_sequence, SRT, VTT, IMSC "
-                        "writer} on one document object with a structural fingerprint after every call. distinct_nontrivial = snapshot pairs.",
+    run.cov.update(evaluations=nq + n_hist_q + n_ops + n_mut + n_mq, distinct_nontrivial=nq,
+                   rule="random documents with 0-3 regions (backgrounds visible only by animation / initial values, opacity 0, whenActive; every 7th: "
+                        "ruby-dense with the spans below rb/rt/rp naming regions) x query times: cached snapshot vs M, cached vs uncached through the "
+                        "render specification and the outcome clause in Coq, hypotheses of the theorems (doc_wf, trigger) evaluated per document; per "
+                        "document one SignificantTimes object queried at a random list of times with repetitions vs the cache-state model; plus random "
+                        "histories of 2-12 operations over {significant_times, from_model uncached / cached with ANY of the objects computed so far, "
+                        "generate_isd_sequence, SRT, VTT, IMSC writer, objects of another document passed in} on one document object with a structural "
+                        "fingerprint after every call; for every document with at most one region (the cache then holds the caller's own document; every "
+                        "second one gets never-active elements: begin = end, or a child beginning after its parent's end) and every document with "
+                        "value-equal set steps on elements with different time bases: significant_times, generate_isd_sequence, SRT, VTT once each "
+                        "with a fingerprint after each, the sequence entries compared with uncached snapshots of a pristine deep copy; plus, on a "
+                        "deep copy of every third document, warmed by uncached/cached snapshots and a sequence, 1-3 edits through the model API "
+                        "(set_begin/set_end on any element or ancestor, remove_child, push_child, put/remove_initial_value, set_text, set_region), "
+                        "after each of which uncached snapshots, significant_times and cached snapshots with an object built after the edit must "
+                        "equal those of a freshly built equal document, and M applied to the literal of the edited document must agree; objects "
+                        "built before the edit are expected to be stale (recorded). distinct_nontrivial = snapshot pairs.",
                    samples=[dict(document=L.doc_lit(docs[0][0])[:1200])], documents=ndocs, regions_skipped_by_cache=n_skipped_regions,
-                   history_operations=n_ops, operation_histogram=op_hist, model_code_mismatches=len(m_bad), render_differences=len(s_bad))
+                   documents_outside_doc_wf=len(not_wf), documents_where_trigger_fires=len(trig), ruby_spans_given_regions=n_scatter,
+                   history_operations=n_ops, operation_histogram=op_hist, history_queries_vs_cache_state_model=n_hist_q,
+                   edits=mut_hist, answers_after_edits_vs_M=n_mq, stale_answers_after_modification=n_stale, never_active_elements_injected=n_never,
+                   value_equal_set_steps=n_eqsets, fixed_cache_builder_histories=n_fixed_hist,
+                   model_code_mismatches=len(m_bad) + len(h_bad) + len(mm_bad), render_differences=len(s_bad), cached_only_raises=len(r_bad))
     run.assumptions += ["'the source is unchanged' is true of an immutable model by construction: that half is established by the fingerprint runs (testing)",
-                        "process-global effects of the writers (namespace registration, loggers) are observed only through C19"]
+                        "process-global effects of the writers (namespace registration, loggers) are observed only through C19",
+                        "when the uncached path raises (recorded C01 finding ruby-inactive-annotation, C18) the pair is not judged: the cached path may raise too or not"]
     return run.finish(["harness/isdlit.py", "harness/gen_core.py"])
 
 
